@@ -734,6 +734,93 @@ func tagsOf(cmds []cspec, s *sim) []string {
 	return tags
 }
 
+// withExecutors: the class "several tasks behind one executor". Takes a scenario and assigns its
+// targets to executors — any partition: everything behind ONE agent+executor (the production
+// layout: one executor per agent), a few executors chosen at random per target, or the same with
+// some targets left on an executor of their own. Targets of one command (and of overlapping
+// commands: the pool of targets is shared) then share agent id and executor id and differ only
+// in the task id. Script and expected behaviour are untouched: the property does not depend on
+// the layout.
+func withExecutors(r *rng.R, c fw.Case) fw.Case {
+	in, err := sx.Parse(c.Input)
+	if err != nil || in.Len() != 2 {
+		return c
+	}
+	cmds, _, err := parseInput(in)
+	if err != nil {
+		return c
+	}
+	var pool []int
+	seen := map[int]bool{}
+	for _, cs := range cmds {
+		for _, ts := range cs.targets {
+			if !seen[ts.t] {
+				seen[ts.t] = true
+				pool = append(pool, ts.t)
+			}
+		}
+	}
+	ex := map[int]int{}
+	layout := "few-executors"
+	switch r.N(3) {
+	case 0:
+		layout = "one-executor"
+		e := r.N(3)
+		for _, t := range pool {
+			ex[t] = e
+		}
+	case 1:
+		k := 1 + r.N(3)
+		for _, t := range pool {
+			ex[t] = r.N(k)
+		}
+	default:
+		layout = "few-executors-some-own"
+		k := 1 + r.N(2)
+		for _, t := range pool {
+			if !r.P(1, 3) {
+				ex[t] = 20 + r.N(k) // away from the numbers of the targets left on their own
+			}
+		}
+	}
+	exOf := func(t int) int {
+		if e, ok := ex[t]; ok {
+			return e
+		}
+		return t
+	}
+	en := sx.L()
+	for _, t := range pool {
+		if e, ok := ex[t]; ok {
+			en.Add(sx.L(sx.I(t), sx.I(e)))
+		}
+	}
+	sharing, sharingCmds := false, 0
+	for _, cs := range cmds {
+		per := map[int]int{}
+		hit := false
+		for _, ts := range cs.targets {
+			per[exOf(ts.t)]++
+			if per[exOf(ts.t)] == 2 {
+				hit = true
+			}
+		}
+		if hit {
+			sharing = true
+			sharingCmds++
+		}
+	}
+	in.Add(en)
+	tags := append(append([]string{}, c.Tags...), "executors-assigned", "executors:"+layout)
+	if sharing {
+		tags = append(tags, "tasks-share-executor-in-one-command")
+	}
+	if sharingCmds >= 2 {
+		tags = append(tags, "tasks-share-executor,several-commands")
+	}
+	return fw.Case{Input: in.String(), Tags: tags}
+}
+
 func generate(tier string, r *rng.R) []fw.Case {
 	n := 2000
 	if tier == "thorough" {
@@ -750,6 +837,12 @@ func generate(tier string, r *rng.R) []fw.Case {
 			cs = append(cs, genLateCase(r.Fork()))
 			continue
 		}
+		if i%6 == 4 {
+			// several tasks behind one executor: the same scenarios with an assignment of targets to executors
+			rf := r.Fork()
+			cs = append(cs, withExecutors(rf, genCase(rf, maxCmds, maxT)))
+			continue
+		}
 		cs = append(cs, genCase(r.Fork(), maxCmds, maxT))
 	}
 	return cs
@@ -763,6 +856,11 @@ func search(r *rng.R) []fw.Case {
 	for i := 0; i < 2500; i++ {
 		if i%4 == 1 {
 			cs = append(cs, genLateCase(r.Fork()))
+			continue
+		}
+		if i%4 == 3 {
+			rf := r.Fork()
+			cs = append(cs, withExecutors(rf, genCase(rf, 3, 4)))
 			continue
 		}
 		cs = append(cs, genCase(r.Fork(), 3, 4))
@@ -818,7 +916,11 @@ func shrinkCands(input string) []string {
 		if _, ok := feasible(cm, sc); ok {
 			n := sx.L()
 			n.List, n.IsList = sc, true
-			out = append(out, sx.L(cmdsNode(cm), n).String())
+			cand := sx.L(cmdsNode(cm), n)
+			if in.Len() == 3 {
+				cand.Add(in.At(2)) // the assignment of targets to executors is kept
+			}
+			out = append(out, cand.String())
 		}
 	}
 	if len(cmds) > 1 {
